@@ -35,7 +35,8 @@ ASSUMPTIONS = [
 ]
 
 MAXI = 2 ** 63 - 1
-KV = [None, [], [[1, 1]], [[1, 2]], [[1, 1], [2, 1]]]
+# [key, value]; value 0 is rendered as the empty string (marker annotations such as "paused": "")
+KV = [None, [], [[1, 1]], [[1, 2]], [[1, 1], [2, 1]], [[1, 0]], [[2, 0]], [[1, 1], [2, 0]], [[1, 1], [3, 0]], [[1, 0], [2, 1]]]
 FIN = [None, [], [1], [1, 2]]
 SC = [None, [], [1], [1, 2], [2, 1]]
 STC = [None, [], [3], [3, 4]]
@@ -63,6 +64,12 @@ def corpus():
             cs.append(case(kind, "update", desc(5), desc(5, c=[]), raw))
             cs.append(case(kind, "update", desc(5, c=[]), desc(5), raw))
             cs.append(case(kind, "update", desc(5), desc(5, labels=[], fin=[]), raw))
+            # empty-valued (marker) keys: replaced by another one, added, removed, value emptied
+            cs.append(case(kind, "update", desc(5, ann=[[1, 0]]), desc(5, ann=[[2, 0]]), raw))
+            cs.append(case(kind, "update", desc(5, ann=[[1, 1], [2, 0]]), desc(5, ann=[[1, 1], [3, 0]]), raw))
+            cs.append(case(kind, "update", desc(5, ann=[[1, 1]]), desc(5, ann=[[1, 0]]), raw))
+            cs.append(case(kind, "update", desc(5, ann=[]), desc(5, ann=[[1, 0]]), raw))
+            cs.append(case(kind, "update", desc(5, labels=[[1, 0]]), desc(5, labels=[[2, 0]]), raw))
             # each member alone
             cs.append(case(kind, "update", base, dict(copy.deepcopy(base), labels=[[1, 2]]), raw))
             cs.append(case(kind, "update", base, dict(copy.deepcopy(base), ann=[[2, 3]]), raw))
